@@ -12,6 +12,10 @@ _ANY_IDX = object()
 _ANY_KEY = object()
 _ANY = object()
 
+# Operators whose rhs is an IP address (or CIDR block).  With the others the rhs
+# is a pattern or is ordered as a string, and rewriting it changes what matches.
+_IP_VALUE_OPERATORS = ("=", "!=", "ISSUBSET", "ISSUPERSET")
+
 
 def _path_is(object_path, path_pattern):
     """
@@ -107,6 +111,11 @@ def windows_reg_key(comp_expr):
         comp_expr: A _ComparisonExpression object whose type is
             windows-registry-key
     """
+    if comp_expr.operator == "MATCHES":
+        # The rhs is a regular expression, not a key: lower-casing it would
+        # change its meaning (e.g. \S to \s).
+        return
+
     if _path_is(comp_expr.lhs, ("key",)) \
             or _path_is(comp_expr.lhs, ("values", _ANY_IDX, "name")):
         # Only string constants can be canonicalized
@@ -129,6 +138,9 @@ def ipv4_addr(comp_expr):
     Args:
         comp_expr: A _ComparisonExpression object whose type is ipv4-addr.
     """
+    if comp_expr.operator not in _IP_VALUE_OPERATORS:
+        return
+
     if _path_is(comp_expr.lhs, ("value",)):
         value = comp_expr.rhs.value
         if not isinstance(value, str):
@@ -193,6 +205,9 @@ def ipv6_addr(comp_expr):
     Args:
         comp_expr: A _ComparisonExpression object whose type is ipv6-addr.
     """
+    if comp_expr.operator not in _IP_VALUE_OPERATORS:
+        return
+
     if _path_is(comp_expr.lhs, ("value",)):
         value = comp_expr.rhs.value
         if not isinstance(value, str):
